@@ -192,7 +192,7 @@ Proof. reflexivity. Qed.
 Theorem child_scope_sees_parent_rules sc n : lookup_rule (empty_frame :: sc) n = lookup_rule sc n.
 Proof. reflexivity. Qed.
 
-(* ================================================================ lookupBuildParameterImpl *)
+(* ================================================================ lookupBuildParamImpl *)
 
 Definition special_name (n : bytes) : Prop := n = nm_in \/ n = nm_in_newline \/ n = nm_out.
 
@@ -202,7 +202,7 @@ Proof.
   intros H. repeat split; apply bytes_eqb_neq; intros E; apply H; unfold special_name; auto.
 Qed.
 
-(* the order of lookupBuildParameterImpl for a name other than in / in_newline / out: build-level binding, else the
+(* the order of lookupBuildParamImpl for a name other than in / in_newline / out: build-level binding, else the
    rule-level text evaluated in the build's context (guarded against cycles), else the scope chain *)
 Theorem lookup_order fuel cx active name : ~ special_name name ->
   lookup_var (S fuel) cx active name =
@@ -318,7 +318,7 @@ Proof.
   unfold eval_in_scope, eval_string. apply eval_go_nf; [intros e; discriminate | intros n; apply nf_nil].
 Qed.
 
-(* activeRuleParameters never repeats a name and only holds names of the rule, so it is shorter than the rule's
+(* activeRuleParams never repeats a name and only holds names of the rule, so it is shorter than the rule's
    variable table whenever one more name is pushed *)
 Lemma lookup_var_nf cx : forall fuel active name,
   NoDup active -> incl active (map fst (bx_rule cx)) -> (length (bx_rule cx) < fuel + length active)%nat ->
@@ -1013,6 +1013,236 @@ Proof.
   - repeat constructor; discriminate.
 Qed.
 
+(* ================================================================ normalize_path never fails under an absolute working directory *)
+
+Definition nohead (l : bytes) : Prop := match l with [] => True | c :: _ => c <> 47 end.
+Definition noslash (l : bytes) : Prop := Forall (fun b => b <> 47) l.
+(* "/", "/a/b", ... : starts with exactly one slash (not the //net form) *)
+Definition simple_abs (wd : bytes) : Prop := exists w, wd = 47 :: w /\ nohead w.
+
+Lemma is_slash_true b : is_slash b = true <-> b = 47.
+Proof. unfold is_slash. apply N.eqb_eq. Qed.
+Lemma is_slash_false b : is_slash b = false <-> b <> 47.
+Proof. unfold is_slash. apply N.eqb_neq. Qed.
+
+Lemma strip_slashes_nohead l : nohead (strip_slashes l).
+Proof.
+  induction l as [|b l IH]; cbn [strip_slashes]; [exact I|].
+  destruct (is_slash b) eqn:E; [exact IH | cbn; apply is_slash_false; exact E].
+Qed.
+
+Lemma span_noslash_fst l : noslash (fst (span_noslash l)).
+Proof.
+  induction l as [|b l IH]; cbn [span_noslash]; [constructor|].
+  destruct (is_slash b) eqn:E; [constructor|].
+  destruct (span_noslash l) as [a t]. cbn [fst] in *. constructor; [apply is_slash_false; exact E | exact IH].
+Qed.
+
+Lemma span_noslash_app a y : noslash a -> span_noslash (a ++ 47 :: y) = (a, 47 :: y).
+Proof.
+  induction 1 as [|b a Hb Ha IH]; cbn [app span_noslash]; [reflexivity|].
+  apply is_slash_false in Hb. rewrite Hb, IH. reflexivity.
+Qed.
+
+Lemma first_component_simple rest : nohead rest -> first_component (47 :: rest) = [47].
+Proof.
+  intros H. destruct rest as [|b [|c r3]]; cbn [first_component]; try reflexivity.
+  cbn in H. replace (47 =? b) with false by (symmetry; apply N.eqb_neq; congruence).
+  cbn. reflexivity.
+Qed.
+
+Lemma root_directory_simple rest : nohead rest -> root_directory (47 :: rest) = [47].
+Proof.
+  intros H. unfold root_directory. rewrite (first_component_simple rest H). reflexivity.
+Qed.
+
+Lemma root_name_simple rest : nohead rest -> root_name (47 :: rest) = [].
+Proof. intros H. unfold root_name. rewrite (first_component_simple rest H). reflexivity. Qed.
+
+(* appending to "/u" (u not starting with a slash) keeps that shape *)
+Lemma path_append_shape u comp : nohead u -> exists rest, path_append (47 :: u) comp = 47 :: rest /\ nohead rest.
+Proof.
+  intros Hu. destruct u as [|c u'].
+  - exists (strip_slashes comp). split; [reflexivity | apply strip_slashes_nohead].
+  - unfold path_append.
+    match goal with |- context [if ?b then _ else _] => destruct b end.
+    + eexists. split; [cbn [app]; reflexivity | exact Hu].
+    + match goal with |- context [if ?b then _ else _] => destruct b end.
+      * eexists. split; [cbn [app]; reflexivity | exact Hu].
+      * eexists. split; [cbn [app]; reflexivity | exact Hu].
+Qed.
+
+(* the net form of a first component *)
+Lemma has_net_head l : has_net l = true -> exists r, l = 47 :: 47 :: r.
+Proof.
+  destruct l as [|x [|y [|z r]]]; cbn [has_net]; try discriminate.
+  intros H. apply andb_true_iff in H. destruct H as [Hx Hy]. apply is_slash_true in Hx. apply N.eqb_eq in Hy. subst.
+  eexists; reflexivity.
+Qed.
+
+Lemma span_head a l : is_slash a = false -> fst (span_noslash (a :: l)) = a :: fst (span_noslash l).
+Proof. intros H. cbn [span_noslash]. rewrite H. destruct (span_noslash l); reflexivity. Qed.
+
+Lemma span_split l : exists t, l = fst (span_noslash l) ++ t /\ (t = [] \/ exists r', t = 47 :: r').
+Proof.
+  induction l as [|x l IH]; cbn [span_noslash].
+  - exists []. split; auto.
+  - destruct (is_slash x) eqn:Ex.
+    + apply is_slash_true in Ex. subst x. exists (47 :: l). split; cbn; eauto.
+    + destruct IH as [t [H2 H3]]. destruct (span_noslash l) as [a0 t0]. cbn [fst] in *.
+      exists t. split; [cbn; rewrite <- H2; reflexivity | exact H3].
+Qed.
+
+Lemma not_net_nonslash a l : is_slash a = false -> has_net (fst (span_noslash (a :: l))) = false.
+Proof.
+  intros H. rewrite (span_head a l H). destruct (has_net (a :: fst (span_noslash l))) eqn:E; [|reflexivity].
+  apply has_net_head in E. destruct E as [r E]. inversion E. subst a. discriminate H.
+Qed.
+
+Lemma has_net_first_component p : has_net (first_component p) = true ->
+  exists c m r, c <> 47 /\ noslash m /\ first_component p = 47 :: 47 :: c :: m /\ p = 47 :: 47 :: c :: m ++ r /\
+                (r = [] \/ exists r', r = 47 :: r').
+Proof.
+  intros H.
+  assert (Hcase : (exists c r3, p = 47 :: 47 :: c :: r3 /\ c <> 47) \/ has_net (first_component p) = false).
+  { destruct p as [|a [|b [|c r3]]].
+    - right. reflexivity.
+    - right. cbn [first_component]. destruct (is_slash a) eqn:Ea; [reflexivity | apply not_net_nonslash; exact Ea].
+    - right. cbn [first_component]. destruct (is_slash a) eqn:Ea; [reflexivity | apply not_net_nonslash; exact Ea].
+    - cbn [first_component]. destruct (is_slash a && (a =? b) && negb (is_slash c)) eqn:E.
+      + left. apply andb_true_iff in E. destruct E as [E Ec]. apply andb_true_iff in E. destruct E as [Ea Eb].
+        apply is_slash_true in Ea. apply N.eqb_eq in Eb. apply negb_true_iff in Ec. apply is_slash_false in Ec. subst a b.
+        exists c, r3. split; [reflexivity | exact Ec].
+      + right. destruct (is_slash a) eqn:Ea; [reflexivity | apply not_net_nonslash; exact Ea]. }
+  destruct Hcase as [[c [r3 [Hp Hc]]] | Hf]; [|congruence].
+  subst p. clear H.
+  destruct (span_split r3) as [t [H2 H3]].
+  exists c, (fst (span_noslash r3)), t.
+  assert (Hc' : is_slash c = false) by (apply is_slash_false; exact Hc).
+  split; [exact Hc|]. split; [apply span_noslash_fst|].
+  split.
+  - cbn [first_component]. replace (is_slash 47 && (47 =? 47) && negb (is_slash c)) with true by (rewrite Hc'; reflexivity).
+    rewrite (span_head c r3 Hc'). reflexivity.
+  - split; [rewrite <- H2; reflexivity | exact H3].
+Qed.
+
+Lemma last_noslash l : noslash l -> l <> [] -> last l 0 <> 47.
+Proof.
+  induction 1 as [|b l Hb Hl IH]; intros Hne; [exfalso; apply Hne; reflexivity|].
+  destruct l as [|c l']; [exact Hb|]. change (last (b :: c :: l') 0) with (last (c :: l') 0). apply IH. discriminate.
+Qed.
+
+Lemma last_snoc (l : bytes) x d : last (l ++ [x]) d = x.
+Proof.
+  induction l as [|y l IH]; [reflexivity|]. cbn [app].
+  destruct (l ++ [x]) as [|z r] eqn:E; [destruct l; discriminate E|]. change (last (y :: z :: r) d) with (last (z :: r) d). exact IH.
+Qed.
+
+Lemma skipn_length_app (a b : bytes) : skipn (length a) (a ++ b) = b.
+Proof. induction a as [|x a IH]; [reflexivity | exact IH]. Qed.
+
+Lemma path_append_app a comp : exists z, path_append a comp = a ++ z.
+Proof.
+  unfold path_append.
+  match goal with |- context [if ?b then _ else _] => destruct b end; [eexists; reflexivity|].
+  match goal with |- context [if ?b then _ else _] => destruct b end; eexists; reflexivity.
+Qed.
+
+Lemma is_nil_false_cons {A : Type} (x : A) l : is_nil (x :: l) = false.
+Proof. reflexivity. Qed.
+
+(* Manifest::normalize_path succeeds on every path when the working directory is "/..." (not the //net form) *)
+Theorem normalize_path_some wd p : simple_abs wd -> exists q, normalize_path wd p = Some q.
+Proof.
+  intros [w [Hwd Hw]]. subst wd. unfold normalize_path.
+  assert (Ht : exists t, make_absolute (47 :: w) p = t /\ is_nil t = false /\ has_root_directory t = true).
+  { unfold make_absolute. destruct (has_root_directory p) eqn:Hrd.
+    - exists p. split; [reflexivity|]. split; [|exact Hrd].
+      destruct p; [discriminate Hrd | reflexivity].
+    - rewrite (root_directory_simple w Hw).
+      unfold root_name at 1. destruct (has_net (first_component p)) eqn:Hnet.
+      + (* p is exactly a //net name *)
+        destruct (has_net_first_component p Hnet) as [c [m [r [Hc [Hm [Hfc [Hp Hr]]]]]]].
+        rewrite Hfc. set (N := (47 :: 47 :: c :: m) : bytes).
+        assert (HA1 : path_append [] N = N) by reflexivity.
+        assert (Hlast : is_slash (@last byte N 0) = false).
+        { apply is_slash_false. unfold N. change (last (47 :: 47 :: c :: m) 0) with (last (c :: m) 0).
+          apply last_noslash; [constructor; assumption | discriminate]. }
+        assert (HA2 : path_append N [47] = N ++ [47]).
+        { unfold path_append. rewrite Hlast. unfold N at 1. cbn [is_nil negb andb]. reflexivity. }
+        assert (HA3 : forall x, path_append (N ++ [47]) x = (N ++ [47]) ++ strip_slashes x).
+        { intros x. unfold path_append. rewrite last_snoc. unfold N at 1. reflexivity. }
+        rewrite HA1, HA2, HA3.
+        destruct (path_append_app ((N ++ [47]) ++ strip_slashes (relative_path (47 :: w))) (relative_path p)) as [z Hz].
+        rewrite Hz. eexists. split; [reflexivity|].
+        set (Y := strip_slashes (relative_path (47 :: w)) ++ z).
+        assert (Hshape : ((N ++ [47]) ++ strip_slashes (relative_path (47 :: w))) ++ z = 47 :: 47 :: c :: (m ++ 47 :: Y)).
+        { unfold N, Y. cbn [app]. rewrite <- !app_assoc. reflexivity. }
+        rewrite Hshape. split; [reflexivity|].
+        unfold has_root_directory, root_directory.
+        assert (Hfc2 : first_component (47 :: 47 :: c :: m ++ 47 :: Y) = N).
+        { cbn [first_component]. apply is_slash_false in Hc.
+          replace (is_slash 47 && (47 =? 47) && negb (is_slash c)) with true by (rewrite Hc; reflexivity).
+          change (c :: m ++ 47 :: Y) with ((c :: m) ++ 47 :: Y).
+          rewrite span_noslash_app by (constructor; [apply is_slash_false; exact Hc | exact Hm]). reflexivity. }
+        rewrite Hfc2. unfold N at 1. cbn [has_net]. replace (is_slash 47 && (47 =? 47)) with true by reflexivity.
+        change (47 :: 47 :: c :: m ++ 47 :: Y) with (N ++ 47 :: Y). rewrite skipn_length_app. reflexivity.
+      + (* an ordinary relative path *)
+        change (path_append [] []) with (@nil byte).
+        change (path_append [] [47]) with [47].
+        destruct (path_append_shape [] (relative_path (47 :: w)) I) as [u [Hu1 Hu2]].
+        change (path_append (path_append [47] (relative_path (47 :: w))) (relative_path p))
+          with (path_append (path_append (47 :: @nil byte) (relative_path (47 :: w))) (relative_path p)).
+        rewrite Hu1.
+        destruct (path_append_shape u (relative_path p) Hu2) as [rest [Hr1 Hr2]]. rewrite Hr1.
+        eexists. split; [reflexivity|]. split; [reflexivity|].
+        unfold has_root_directory. rewrite (root_directory_simple rest Hr2). reflexivity. }
+  destruct Ht as [t [Ht [Hn Hr]]]. rewrite Ht, Hn, Hr. cbn [negb orb]. eexists; reflexivity.
+Qed.
+
+(* the model's ENullNode outcome (the C++ would store a null Node* and dereference it later) is unreachable under
+   such a working directory; eval_paths is the only place that constructs ENullNode *)
+Theorem no_null_node wd sc e : simple_abs wd -> e <> ENullNode ->
+  forall toks nodes, ~ In ENullNode (p_errs (eval_paths wd sc e toks nodes)).
+Proof.
+  intros Hwd He. induction toks as [|t ts IH]; intros nodes; [intros []|].
+  cbn [eval_paths].
+  assert (Hev : ~ In ENullNode (snd (eval_in_scope sc t))).
+  { unfold eval_in_scope, eval_string.
+    assert (G : forall s m, ~ In ENullNode (snd (eval_go EEval (scope_lookup sc) m s))).
+    { induction s as [|b s IHs]; intros m.
+      - destruct m; cbn; intros H; try contradiction; destruct H as [H|[]]; discriminate H.
+      - destruct m as [| | |n v|n]; cbn [eval_go].
+        + destruct (b =? 36); [apply IHs | cbn [ev_emit snd]; apply IHs].
+        + destruct (b =? 10); [apply IHs|].
+          destruct ((b =? 32) || (b =? 58) || (b =? 36)); [cbn [ev_emit snd]; apply IHs|].
+          destruct (b =? 123); [apply IHs|].
+          destruct (NinjaLex.is_simple_ident_char b); [apply IHs|].
+          cbn. intros [H|[]]; discriminate H.
+        + destruct (NinjaLex.is_space b); [apply IHs|].
+          destruct (b =? 36); [apply IHs | cbn [ev_emit snd]; apply IHs].
+        + destruct (b =? 125); [|apply IHs].
+          unfold ev_then. cbn [snd]. intros H. apply in_app_or in H. destruct H as [H|H]; [|exact (IHs _ H)].
+          destruct v; cbn in H; [contradiction | destruct H as [H|[]]; discriminate H].
+        + destruct (NinjaLex.is_simple_ident_char b); [apply IHs|].
+          unfold ev_then. cbn [snd scope_lookup app].
+          destruct (b =? 36); [apply IHs | cbn [ev_emit snd]; apply IHs]. }
+    apply G. }
+  destruct (eval_in_scope sc t) as [p es]. cbn [snd] in Hev.
+  unfold find_or_create_node. destruct (normalize_path_some wd p Hwd) as [q Hq]. rewrite Hq.
+  destruct (aget q nodes) as [scr|].
+  - specialize (IH nodes). destruct (eval_paths wd sc e ts nodes) as [[ns nodes2] es3].
+    unfold p_errs in *. cbn [snd] in *. intros H.
+    apply in_app_or in H. destruct H as [H|H]; [exact (Hev H)|].
+    apply in_app_or in H. destruct H as [H|H]; [destruct (is_nil p); [destruct H as [H|[]]; congruence | contradiction]|].
+    cbn [app] in H. exact (IH H).
+  - specialize (IH (nodes ++ [(q, p)])). destruct (eval_paths wd sc e ts (nodes ++ [(q, p)])) as [[ns nodes2] es3].
+    unfold p_errs in *. cbn [snd] in *. intros H.
+    apply in_app_or in H. destruct H as [H|H]; [exact (Hev H)|].
+    apply in_app_or in H. destruct H as [H|H]; [destruct (is_nil p); [destruct H as [H|[]]; congruence | contradiction]|].
+    cbn [app] in H. exact (IH H).
+Qed.
+
 (* combined forms used by the property file *)
 Theorem in_out_quoting ex outs ps rule sc name :
   lookup_named ex outs ps rule sc name =
@@ -1023,3 +1253,10 @@ Proof. split; [apply lookup_named_context | apply escapes_in_out_spec]. Qed.
 Theorem subninja_child_sees_parent sc x rn :
   lookup_binding (empty_frame :: sc) x = lookup_binding sc x /\ lookup_rule (empty_frame :: sc) rn = lookup_rule sc rn.
 Proof. split; reflexivity. Qed.
+
+Example simple_abs_instance : simple_abs [47; 119; 47; 100] /\ simple_abs [47].
+Proof.
+  split.
+  - exists [119; 47; 100]. split; [reflexivity | cbn; discriminate].
+  - exists []. split; [reflexivity | exact I].
+Qed.
